@@ -565,8 +565,9 @@ func (s *SegmentBase) visitStoredFields(vdc *visitDocumentCtx, num uint64,
 
 		keepGoing := visitor("_id", byte('t'), idFieldVal, nil)
 		if !keepGoing {
-			verifPoolPut("vdc", vdc)
-			visitDocumentCtxPool.Put(vdc)
+			// vdc belongs to the caller (VisitStoredFields, mergeStoredAndRemap),
+			// which returns it to the pool exactly once; returning it here as
+			// well handed the same context to two later callers
 			return nil
 		}
 
